@@ -47,7 +47,7 @@ def _one(job):
             pr = Project(openapi=data, config=cfg)
             errs = pr.build()
         proj = pr.project_dir
-        tree = {str(p.relative_to(proj)): p.read_bytes().decode("utf-8") for p in sorted(proj.rglob("*")) if p.is_file()}
+        tree = {str(p.relative_to(proj)): p.read_bytes().decode("latin-1") for p in sorted(proj.rglob("*")) if p.is_file() and ".ruff_cache" not in p.parts}
         log = [int(x) for x in tree.pop(LOG, "").split()]
         diags = []
         for e in errs:
